@@ -44,7 +44,7 @@ KNOWN_FINDING_STDOUT_AFTER_IDLE_ON_ERROR = True
 # Skipped shape: requests with buffers are not generated.
 KNOWN_FINDING_BUFFERS_COVERED_BY_SIGNATURE = True
 
-CASE_TIMEOUT = 30.0
+CASE_TIMEOUT = 10.0
 
 # ------------------------------------------------------------------------------------------
 # part 1: frames
@@ -577,6 +577,9 @@ async def run_session(case):
             if stopped:
                 info["skipped_shapes"].append("listener-stopped")
                 break
+            if s.dead:
+                obs_list.append({"i": i, "hang": True, "undeliverable": True})
+                break
             frames, header = request_frames(s.key, i, op)
             valid = kh.verify(s.key, frames)
             sp = kh.split_wire(frames)
@@ -865,7 +868,7 @@ class C19(ModelCheck):
             self._exit_env()
 
     def n_random(self, tier):
-        return {"quick": 4000, "thorough": 240000}[tier]
+        return {"quick": 4000, "thorough": 160000}[tier]
 
     def exhaustive_cases(self, tier):
         return exhaustive_frame_cases() + exhaustive_session_cases(tier)
